@@ -118,6 +118,28 @@ func runC19(r *Rec) {
 		before := npSnapshot(ctx, k)
 		var err error
 		req := govtypes.NetworkPropertyValue{Value: val, StrValue: sv}
+		if path == "dryrun" {
+			// the set runs on a cache context that is DISCARDED whatever the verdict (MsgSubmitProposal dry-runs
+			// every proposal like this; a failed later message of a transaction has the same effect): nothing may
+			// change, neither now nor through a later write in the same block
+			cc, _ := ctx.CacheContext()
+			err = k.SetNetworkProperty(cc, govtypes.NetworkProperty(id), req)
+			out := "ok"
+			if err != nil {
+				out = "err"
+			}
+			r.Op(fmt.Sprintf("props dryrun %d %d %s", id, val, encS(sv)), out)
+			r.Op("props dump", npDump(ctx, k))
+			r.Count("dryrun:" + kinds[id] + ":" + out)
+			r.Case(fmt.Sprintf("dry/%d/%d/%s/%s", id, val, sv, out), true)
+			after := npSnapshot(ctx, k)
+			for _, oid := range ids {
+				if before[oid] != after[oid] {
+					r.Fail("C19/discarded-write/visible", fmt.Sprintf("a set of id %d executed on a discarded cache context changed id %d from %s to %s", id, oid, before[oid], after[oid]), []string{fmt.Sprintf("props dryrun %d %d %s", id, val, encS(sv))})
+				}
+			}
+			return
+		}
 		switch path {
 		case "keeper":
 			err = withCache(ctx, func(c sdk.Context) error { return k.SetNetworkProperty(c, govtypes.NetworkProperty(id), req) })
@@ -218,7 +240,7 @@ func runC19(r *Rec) {
 	r.Mark("random sequences")
 	for i := 0; i < n; i++ {
 		id := ids[r.Rng.Intn(len(ids))]
-		path := []string{"keeper", "proposal"}[r.Rng.Intn(2)]
+		path := []string{"keeper", "proposal", "keeper", "proposal", "dryrun"}[r.Rng.Intn(5)]
 		switch kinds[id] {
 		case "u64", "none":
 			var v uint64
